@@ -743,7 +743,7 @@ func checkValidate(c *Ctx, v *ssa.Function, rule string) {
 					}
 					continue
 				}
-				if _, isConst := constInt(idx); isConst {
+				if _, isConst := constInt(idx); isConst || isLenMinus1(idx, sl) {
 					continue // the first / last tests
 				}
 				idxA := aff0.Of(idx)
